@@ -143,6 +143,7 @@ int main(int argc, char** argv) {
         auto imp = std::make_shared<Impedance>(zv, 1e12);
         ElectricField ef(ps, imp, buckets, spacing, nullptr, 9e6, 0.01, 1e-3, 1.3e9, 4.7e-4, 1e-9);
         ElectricField rad(ps, imp, buckets, 0, nullptr, 9e6, 0.01);
+        ElectricField spc(ps, imp, buckets, spacing, nullptr, 9e6, 0.01);     // a spaced field that only ever computes CSR
         for (int round = 0; round < 2; round++) {        // second round: history independence
             boost::multi_array<projection_t, 3> proj(boost::extents[2][nb][N]);
             for (int n = 0; n < nb; n++) for (int x = 0; x < N; x++) proj[0][n][x] = float(std::exp(-0.5 * std::pow((x - N / 2.0 + n + 2 * round) / (2.0 + n), 2)) * (1 + 0.3 * u(g)));
@@ -159,7 +160,15 @@ int main(int argc, char** argv) {
                 for (size_t i = 0; i < nmax; i++) { double v = rad.getCSRSpectrum()[n * nmax + i]; if (v < 0) neg = true; s += v; }
                 double P = rad.getCSRPower()[n];
                 if (neg) { printf("MISMATCH negative spectrum bunch %d\n", n); bad++; }
-                cmp("csr_power_vs_spectrum_sum", n, 0, P, s * rad.getFreqRuler()->delta(), 2e-5, std::fabs(P) + 1e-30); }
+                cmp("csr_power_vs_spectrum_sum", n, 0, P, s * rad.getFreqRuler()->delta(), 2e-5, std::fabs(P) + 1e-30);
+                // spectrum law (C07/C18): renorm * Re Z[i] * |DFT of THIS bunch's zero-padded profile|^2 below the half length,
+                // nothing above it (the radiation field never runs wakePotential, its upper form-factor half stays zero)
+                std::vector<double> want(nmax, 0.0); double top = 0;
+                for (size_t i = 0; i <= nmax / 2; i++) { cd f = 0; for (int x = 0; x < N; x++) f += double(proj[0][n][x]) * std::polar(1.0, -2 * M_PI * double((i * x) % nmax) / nmax);
+                    want[i] = double(rad._formfactorrenorm) * Z[i].real() * std::norm(f); top = std::max(top, std::fabs(want[i])); }
+                for (size_t i = 0; i < nmax; i++) cmp(round ? "csr_spectrum_law(second call)" : "csr_spectrum_law", n, (int)i, rad.getCSRSpectrum()[n * nmax + i], want[i], 2e-4, top + 1e-30);
+                if (n == 0) spc.updateCSR(0);
+                for (size_t i = 0; i < nmax; i++) cmp(round ? "csr_spectrum_law(spaced field, second call)" : "csr_spectrum_law(spaced field)", n, (int)i, spc.getCSRSpectrum()[n * nmax + i], want[i], 2e-4, top + 1e-30); }
         }
         printf("ef_replay: %d mismatches (N=%d pattern=%s spacing=%zu nmax=%zu)\n", bad, N, pat.c_str(), spacing, nmax);
         return bad ? 1 : 0;
